@@ -4,11 +4,19 @@ package main
 
 import (
 	"verif/harness/c04"
+	"verif/harness/c05"
+	"verif/harness/c09"
+	"verif/harness/c17"
+	"verif/harness/c18"
 	"verif/harness/core"
 )
 
 func main() {
 	core.WorkerMain(map[string]core.Harness{
 		"C04": c04.H{},
+		"C05": c05.H{},
+		"C09": c09.H{},
+		"C17": c17.H{},
+		"C18": c18.H{},
 	})
 }
